@@ -44,6 +44,50 @@ def box : Pos → Pos → List Pos
   | _ :: _, [] => []
   | m :: ms, s :: ss => (box ms ss).flatMap (row m (s - m).toNat)
 
+/-- special members, specified on values: every object holds a whole grid value or (moved-from) none;
+    copying duplicates the value, moving transfers it, swapping exchanges the two objects -/
+def specStep {α : Type} (st : List (Option (Grid α))) : RegOp → Option (List (Option (Grid α)))
+  | .copyCtor d s =>
+    if d == s then none else
+    match st[s]?, st[d]? with
+    | some (some v), some _ => some (st.set d (some v))
+    | _, _ => none
+  | .copyAssign d s =>
+    match st[s]?, st[d]? with
+    | some (some v), some _ => some (st.set d (some v))
+    | _, _ => none
+  | .moveCtor d s =>
+    if d == s then none else
+    match st[s]?, st[d]? with
+    | some (some v), some _ => some ((st.set d (some v)).set s none)
+    | _, _ => none
+  | .moveAssign d s =>
+    match st[s]?, st[d]? with
+    | some x, some _ =>
+      if d == s then some st else
+      match x with
+      | some v => some ((st.set d (some v)).set s none)
+      | none => none
+    | _, _ => none
+  | .swapMember a b | .swapFree a b =>
+    match st[a]?, st[b]? with
+    | some x, some y => some ((st.set a y).set b x)
+    | _, _ => none
+
+def specRun {α : Type} (st : List (Option (Grid α))) : List RegOp → Option (List (Option (Grid α)))
+  | [] => some st
+  | op :: ops => (specStep st op).bind fun st' => specRun st' ops
+
+/-- what an object is worth: its grid, or nothing once it has been moved from -/
+def absSlot {α : Type} (s : Slot α) : Option (Grid α) := if s.moved then none else some s.g
+
+/-- the lexicographic order on lists of integers (the meaning of `std::lexicographical_compare`) -/
+def LexLt : List Int → List Int → Prop
+  | [], [] => False
+  | [], _ :: _ => True
+  | _ :: _, [] => False
+  | x :: xs, y :: ys => x < y ∨ (x = y ∧ LexLt xs ys)
+
 instance : (mn sp p : Pos) → Decidable (InBox mn sp p)
   | [], [], [] => isTrue trivial
   | m :: ms, s :: ss, x :: xs =>
